@@ -67,6 +67,9 @@ type canonCase struct {
 
 func genCanonCase(t *rapid.T, maxN, nperms int) canonCase {
 	g := genAnyGraph(t, maxN)
+	if rapid.IntRange(0, 3).Draw(t, "largecells") == 0 {
+		g = genLargeSymmetric(t, sz(36, 44))
+	}
 	c := canonCase{G: specOf(g)}
 	for i := 0; i < nperms; i++ {
 		c.Perms = append(c.Perms, genPerm(t, g.N, "pi"))
@@ -369,6 +372,7 @@ func checkAutCase(c autCase, rec *Rec) error {
 type reuseCase struct {
 	CapN, CapM int
 	Gs         []GSpec
+	Classes    [][][]int // per graph: nil = no vertex classes, otherwise an ordered partition of its vertices
 }
 
 func genReuseCase(t *rapid.T) reuseCase {
@@ -381,10 +385,27 @@ func genReuseCase(t *rapid.T) reuseCase {
 			g = oracle.New(rapid.IntRange(0, 6).Draw(t, "n")) // edgeless, incl. n = 0
 		case 1:
 			g = mComplete(rapid.IntRange(1, 6).Draw(t, "n"))
+		case 2:
+			g = genLargeSymmetric(t, sz(26, 40))
 		default:
 			g = genAnyGraph(t, sz(9, 12))
 		}
 		c.Gs = append(c.Gs, specOf(g))
+		var classes [][]int
+		if g.N > 0 && rapid.IntRange(0, 2).Draw(t, "withclasses") == 0 {
+			k := rapid.IntRange(1, 4).Draw(t, "nclasses")
+			tmp := make([][]int, k)
+			for _, v := range genPerm(t, g.N, "shuffle") {
+				ci := rapid.IntRange(0, k-1).Draw(t, "class")
+				tmp[ci] = append(tmp[ci], v)
+			}
+			for _, cl := range tmp {
+				if len(cl) > 0 {
+					classes = append(classes, cl)
+				}
+			}
+		}
+		c.Classes = append(c.Classes, classes)
 		c.CapN = max(c.CapN, g.N)
 		c.CapM = max(c.CapM, g.M())
 	}
@@ -419,6 +440,22 @@ func checkReuseCase(c reuseCase, rec *Rec) error {
 		}
 		prevN = g.N
 		n, m := g.N, g.M()
+		var classes [][]int
+		var cv []int
+		if i < len(c.Classes) && c.Classes[i] != nil {
+			classes = c.Classes[i]
+			cv = classVector(classes, n)
+		}
+		copyClasses := func() [][]int {
+			if classes == nil {
+				return nil
+			}
+			out := make([][]int, len(classes))
+			for k := range classes {
+				out[k] = append([]int{}, classes[k]...)
+			}
+			return out
+		}
 		nb := make([][]int, n)
 		for v := range nb {
 			nb[v] = g.Nbrs(v)
@@ -427,23 +464,23 @@ func checkReuseCase(c reuseCase, rec *Rec) error {
 		var orbits disjoint.Set
 		var gens [][]int
 		if p := try(func() {
-			op.Reset(n, m, nil)
+			op.Reset(n, m, copyClasses())
 			perm, orbits, gens = graph.CanonicalIsomorphAllocated(n, m, nb, op, storage, new(graph.CanonicalOptions))
 		}); p != nil {
-			return fmt.Errorf("graph #%d (n=%d %v) through reused storage (cap %d,%d) panicked: %v", i, n, clipEdges(g), c.CapN, c.CapM, p)
+			return fmt.Errorf("graph #%d (n=%d %v classes %v) through reused storage (cap %d,%d) panicked: %v", i, n, clipEdges(g), classes, c.CapN, c.CapM, p)
 		}
 		// results alias the storage: copy them out
 		perm = append([]int{}, perm...)
 		orbits = append(disjoint.Set(nil), orbits...)
 		gens = copyGens(gens)
-		what := fmt.Sprintf("graph #%d of %d (n=%d %v) through reused storage (cap %d,%d)", i, len(c.Gs), n, clipEdges(g), c.CapN, c.CapM)
-		if err := checkAutData(what, g, nil, perm, orbits, gens); err != nil {
+		what := fmt.Sprintf("graph #%d of %d (n=%d %v classes %v) through reused storage (cap %d,%d)", i, len(c.Gs), n, clipEdges(g), classes, c.CapN, c.CapM)
+		if err := checkAutData(what, g, cv, perm, orbits, gens); err != nil {
 			return err
 		}
 		var fperm []int
 		var forbits disjoint.Set
 		var fgens [][]int
-		if p := try(func() { fperm, forbits, fgens = graph.CanonicalIsomorphFull(denseOf(g), nil) }); p != nil {
+		if p := try(func() { fperm, forbits, fgens = graph.CanonicalIsomorphFull(denseOf(g), copyClasses()) }); p != nil {
 			return fmt.Errorf("fresh CanonicalIsomorphFull panicked: %v", p)
 		}
 		if !eqInts(perm, fperm) {
@@ -563,7 +600,7 @@ func checkClassCase(c classCaseV, rec *Rec) error {
 
 func init() {
 	RegisterRapid("C01_canonical_invariance",
-		"rapid: graph from the mixed generator biased to symmetric inputs (random d-regular graphs by edge switching, circulants, Cayley graphs of Z_a x Z_b, hypercubes, Petersen/Kneser/Johnson/Paley/Shrikhande/rook/generalised Petersen, complete multipartite, products, k disjoint copies (+ another component), joins, wheels, G(n,p)); optional complement, 0-2 toggled edges, isolated/universal vertex; n <= 12 (quick) / 20 (thorough); 4 (8) uniform relabellings pi. CanonicalIsomorph must return a permutation (dense, sparse and view inputs agree; g.InducedSubgraph(perm) equals the model's relabelling) and the canonical graphs of g and every pi(g) must be identical; a second graph (a degree-preserving edge switch of g, relabelled) must get the same canonical graph iff the oracle's individualisation-refinement canonical form says they are isomorphic. Non-trivial: 1-WL colour refinement does not individualise all vertices (the search tree must branch).",
+		"rapid: graph from the mixed generator biased to symmetric inputs (random d-regular graphs by edge switching, circulants, Cayley graphs of Z_a x Z_b, hypercubes, Petersen/Kneser/Johnson/Paley/Shrikhande/rook/generalised Petersen, complete multipartite, products, k disjoint copies (+ another component), joins, wheels, G(n,p)); optional complement, 0-2 toggled edges, isolated/universal vertex; n <= 12 (quick) / 20 (thorough), and in a quarter of the cases graphs on 13..36 (44) vertices whose refinement leaves cells of 13..36 vertices (unions of 2-4 cycles, 2-3 copies of a 7..13-vertex graph, Latin-square graphs of order 3..6, random regular graphs on 14..30 vertices, complete multipartite graphs with parts up to 14, rook/Kneser/Johnson/hypercube/Paley graphs, sparse graphs with many leaves); 4 (8) uniform relabellings pi. CanonicalIsomorph must return a permutation (dense, sparse and view inputs agree; g.InducedSubgraph(perm) equals the model's relabelling) and the canonical graphs of g and every pi(g) must be identical; a second graph (a degree-preserving edge switch of g, relabelled) must get the same canonical graph iff the oracle's individualisation-refinement canonical form says they are isomorphic. Non-trivial: 1-WL colour refinement does not individualise all vertices (the search tree must branch).",
 		Budget{Checks: 2500, Shards: 1}, Budget{Checks: 40000, Shards: 16},
 		func(t *rapid.T) canonCase { return genCanonCase(t, sz(12, 20), sz(4, 8)) }, checkCanonCase)
 	RegisterEnum("C01_all_classes",
@@ -589,11 +626,16 @@ func init() {
 		true, Budget{Shards: 1}, Budget{Shards: 8}, enumVertexTransitive, checkAllPerms)
 
 	RegisterRapid("C02_aut_fresh",
-		"rapid: same symmetric-biased generator, n <= 12 (quick) / 20 (thorough) plus edgeless/complete/n<=2. CanonicalIsomorphFull(g, nil) on dense and sparse inputs: every generator is a permutation and an automorphism, the returned orbit partition equals the orbit partition of Aut(g) computed by an independent existence-of-automorphism search (both directions), and the group generated by the returned generators (own Schreier-Sims) has order |Aut(g)| (stabiliser-chain oracle), hence is all of Aut(g). Non-trivial: |Aut(g)| > 1.",
+		"rapid: same symmetric-biased generator, n <= 12 (quick) / 20 (thorough) plus edgeless/complete/n<=2, a quarter of the cases from the large-cell families on 13..30 (40) vertices. CanonicalIsomorphFull(g, nil) on dense and sparse inputs: every generator is a permutation and an automorphism, the returned orbit partition equals the orbit partition of Aut(g) computed by an independent existence-of-automorphism search (both directions), and the group generated by the returned generators (own Schreier-Sims) has order |Aut(g)| (stabiliser-chain oracle), hence is all of Aut(g). Non-trivial: |Aut(g)| > 1.",
 		Budget{Checks: 1500, Shards: 1}, Budget{Checks: 10000, Shards: 8},
-		func(t *rapid.T) autCase { return autCase{specOf(genAnyGraph(t, sz(12, 20)))} }, checkAutCase)
+		func(t *rapid.T) autCase {
+			if rapid.IntRange(0, 3).Draw(t, "largecells") == 0 {
+				return autCase{specOf(genLargeSymmetric(t, sz(30, 40)))}
+			}
+			return autCase{specOf(genAnyGraph(t, sz(12, 20)))}
+		}, checkAutCase)
 	RegisterRapid("C02_storage_reuse",
-		"rapid: a history of 2..8 (thorough 30) graphs (mixed generator n <= 9/12, edgeless incl. n = 0, complete) pushed through ONE NewStorage/NewOrderedPartition pair sized for the largest plus slack, Reset before each call; results are copied out and must (a) satisfy the C02_aut_fresh checks and (b) equal a fresh CanonicalIsomorphFull call: same permutation, same orbit partition, same generator list. Non-trivial: some graph has fewer vertices than its predecessor.",
+		"rapid: a history of 2..8 (thorough 30) graphs (mixed generator n <= 9/12, edgeless incl. n = 0, complete) pushed through ONE NewStorage/NewOrderedPartition pair sized for the largest plus slack, Reset before each call, a third of the graphs with an ordered partition into 1..4 vertex classes (so the number of root cells goes up and down as well); results are copied out and must (a) satisfy the C02_aut_fresh checks and (b) equal a fresh CanonicalIsomorphFull call: same permutation, same orbit partition, same generator list. Non-trivial: some graph has fewer vertices than its predecessor.",
 		Budget{Checks: 600, Shards: 1}, Budget{Checks: 4000, Shards: 8}, genReuseCase, checkReuseCase)
 	RegisterRapid("C02_vertex_classes",
 		"rapid: graph (n <= 8/11) with an ordered partition of the vertices into 1..4 classes given as lists in arbitrary order, and a relabelling. CanonicalIsomorphFull(g, classes): permutation lists class 0 first, then class 1, ...; orbits/generators are checked against the class-preserving automorphism group; relabelling g and transporting the classes gives the identical canonical graph with the same class at every position. Non-trivial: >= 2 classes and a non-trivial class-preserving automorphism.",
